@@ -154,7 +154,7 @@ func c19Tokens(tag string) []string {
 
 func c19Child(c *mon.Child) {
 	// (1) token soup on arbitrary field types
-	nSoup := c.N(40000, 250000)
+	nSoup := c.N(40000, 800000)
 	r := c.RNG("soup")
 	for i := 0; i < nSoup; i++ {
 		key := fmt.Sprintf("s%d", i)
